@@ -148,6 +148,9 @@ let handle (line:string) : string =
   | Atom "legal" :: Atom late :: tree :: cfgs ->
       let t = tree_of tree in
       String.concat "" (List.map (function L l -> b2s (legal_sids (late = "1") t (List.map nat_n l)) | _ -> "?") cfgs)
+  | Atom "wfcore" :: Atom late :: tree :: _ ->
+      let c = flatten (late = "1") (tree_of tree) in
+      b2s (wf_coreb c && (match (st c O).fs_type with FCompound -> true | _ -> false))
   | Atom "wf" :: toks ->
       let tl = List.map (fun a -> tok_of (atom a)) toks in
       if wf_traceb tl then "1" else
